@@ -373,7 +373,11 @@ MORE_THM = {
         "one, and lookups answer accordingly (no_finished_insert_lost). exists_hash next to any whole writer answers as before or "
         "as after it; two by-address writers of any data serialize with no collision hypothesis.",
  "C09": " Under every fault plan a full removal changes only the key's bucket and the found entry's content file, and only by "
-        "removing them (removeFully_changes_only, removeFully_only_removes).",
+        "removing them (removeFully_changes_only, removeFully_only_removes). Repeating a removal removes nothing more "
+        "(Lemmas/SpecLaws): a second remove_fully of the same key leaves index, store, bucket files and directories as the "
+        "first left them and answers the NotFound of the missing bucket after an ok; a second clear answers ok on the empty "
+        "cache; the abstract removal and clear are idempotent for every abstract state (removeFully_idempotent, "
+        "removeFully_again_answers_notFound, clear_idempotent, spec_removals_idempotent).",
  "C15": " PROGRAM LEVEL: every path argument of find / insert / delete for a key is its bucket path or that path's parent; "
         "keys with equal SHA-1 touch the same index paths and nothing else of the key reaches a path (index_ops_paths, "
         "same_sha1_same_paths).",
